@@ -51,6 +51,14 @@ pub struct RunResult {
     pub dump_hashes: Vec<String>,
     pub reports: Vec<String>,
     pub sizes: BTreeMap<String, usize>,
+    /// verif-hooks coverage counters (which size-gated code paths this process entered)
+    #[serde(default)]
+    pub paths: BTreeMap<String, u64>,
+}
+
+/// process-wide counters from the verif-hooks feature of core-relations
+pub fn path_counters() -> BTreeMap<String, u64> {
+    egglog_core_relations::verif::snapshot().into_iter().map(|(k, v)| (k.to_string(), v)).collect()
 }
 
 pub fn make_egraph(cfg: &RunCfg) -> EGraph {
@@ -162,6 +170,7 @@ pub fn run_text(file: Option<String>, text: &str, cfg: &RunCfg) -> RunResult {
             res.sizes.insert(n.clone(), eg.get_size(n));
         }
     }
+    res.paths = path_counters();
     res
 }
 
